@@ -159,6 +159,7 @@ func vLexLE(a, b weight) bool {
 //@ func (*ComputedStyle).isRootElement
 //@   props C04
 //@   nopanic
+//@   requires c != nil
 //@   inline
 
 // The value a property takes before computation: the cascaded value if there is one, else
